@@ -1319,6 +1319,9 @@ func (tc *typechecker) checkBuiltinCall(expr *ast.Call) []*typeInfo {
 		}
 		re := tc.checkExpr(expr.Args[0])
 		im := tc.checkExpr(expr.Args[1])
+		if re.Nil() || im.Nil() {
+			panic(tc.errorf(expr, "invalid operation: %s (use of untyped nil)", expr))
+		}
 		if re.IsUntypedConstant() && im.IsUntypedConstant() {
 			reKind := re.Type.Kind()
 			imKind := im.Type.Kind()
@@ -1438,7 +1441,11 @@ func (tc *typechecker) checkBuiltinCall(expr *ast.Call) []*typeInfo {
 				panic(tc.errorf(expr, "%s", err))
 			}
 		}
-		key.setValue(keyType)
+		if key.Nil() {
+			tc.compilation.typeInfos[expr.Args[1]] = tc.nilOf(keyType)
+		} else {
+			key.setValue(keyType)
+		}
 		return nil
 
 	case "len":
@@ -1579,6 +1586,9 @@ func (tc *typechecker) checkBuiltinCall(expr *ast.Call) []*typeInfo {
 			panic(tc.errorf(expr, "too many arguments to %s: %s", ident.Name, expr))
 		}
 		t := tc.checkExpr(expr.Args[0])
+		if t.Nil() {
+			panic(tc.errorf(expr, "invalid argument nil for %s", ident.Name))
+		}
 		ti := &typeInfo{Type: float64Type}
 		if t.IsUntypedConstant() {
 			if !isNumeric(t.Type.Kind()) {
